@@ -524,3 +524,129 @@ func matrixCases() []caseSpec {
 	}
 	return out
 }
+
+// ---------------------------------------------------------------------------
+// Long histories: few keys overwritten / deleted / re-created over more than a hundred flushed
+// entries, so that the storage file crosses the inline-compaction trigger (>= 100 entries in
+// the file, entries >= 2 x live keys, dead fraction > 0.3) while the swamp is being written.
+
+// uniqueSet writes a value that no other write of the history uses (seq >= 1, never zero-like).
+func uniqueSet(r *rand.Rand, key string, seq uint64) step {
+	kind := []string{"int64", "string", "bytes", "uint32", "float64"}[r.IntN(5)]
+	st := step{Op: "set", Key: key, Kind: kind, Class: "rand", Bits: seq, Create: true, Overwrite: true}
+	if kind == "float64" {
+		st.Bits = math.Float64bits(float64(seq) + 0.5)
+	}
+	if r.IntN(3) == 0 {
+		st.Meta = &metaSpec{CB: 2 + int(seq%3), UA: 1 + int(seq%6), UB: 2 + int((seq+1)%3), EA: []int{0, 3, 4}[seq%3]}
+	}
+	return st
+}
+
+// genLongExact: the history is sized so that the file reaches the compaction trigger in the
+// very last flushed batch before the close (or within a few writes of it); that batch holds an
+// update, and possibly a delete of an old key and the insert of a new one.
+func genLongExact(r *rand.Rand, idx int) caseSpec {
+	cs := caseSpec{Name: fmt.Sprintf("long-exact-%d", idx), WriteSec: int64(idx % 2), IdleSec: 3}
+	cs.Close = []string{"idle", "restart"}[(idx/2)%2]
+	cs.Swamp = fmt.Sprintf("c05/x%d/s%d", cs.WriteSec, idx)
+	k := 3 + r.IntN(8)
+	keys := make([]string, k)
+	for i := range keys {
+		keys[i] = fmt.Sprintf("L%d", i)
+	}
+	seq := uint64(0)
+	next := func(key string) step { seq++; return uniqueSet(r, key, seq) }
+	special := r.IntN(3) // what else the trigger batch holds: 0 nothing, 1 a delete, 2 an insert, (interval mode: both for 1)
+	if cs.WriteSec == 0 {
+		// immediate mode: every changing request appends one entry
+		for i := 0; i < 99; i++ {
+			cs.Steps = append(cs.Steps, next(keys[i%k]))
+		}
+		trigger := keys[99%k]
+		switch special {
+		case 0:
+			cs.Steps = append(cs.Steps, next(trigger))
+		case 1:
+			cs.Steps = append(cs.Steps, step{Op: "del", Keys: []string{trigger}})
+		default:
+			trigger = "L-fresh"
+			cs.Steps = append(cs.Steps, next(trigger))
+		}
+		// a few more writes, none of them to the key of the 100th entry
+		for i, m := 0, r.IntN(3); i < m; i++ {
+			key := keys[r.IntN(k)]
+			if key != trigger {
+				cs.Steps = append(cs.Steps, next(key))
+			}
+		}
+	} else {
+		// interval mode: one batch over all keys per write tick, k entries per flush
+		batches := (100 + k - 1) / k
+		for b := 0; b < batches-1; b++ {
+			for _, key := range keys {
+				cs.Steps = append(cs.Steps, next(key))
+			}
+			cs.Steps = append(cs.Steps, step{Op: "sleep", Ms: 1100})
+		}
+		for i, key := range keys {
+			if i == 0 && special >= 1 {
+				cs.Steps = append(cs.Steps, step{Op: "del", Keys: []string{key}})
+				continue
+			}
+			cs.Steps = append(cs.Steps, next(key))
+		}
+		if special >= 1 {
+			cs.Steps = append(cs.Steps, next("L-fresh"))
+		}
+		// flushed by the write tick (pause first) or by the close itself
+		if r.IntN(2) == 0 {
+			cs.Steps = append(cs.Steps, step{Op: "sleep", Ms: 1100})
+		}
+		cs.SettleMs = []int{0, 1500}[r.IntN(2)]
+	}
+	return cs
+}
+
+// genLongRandom: 150-400 writes over 3-10 keys in batches spread over many write ticks (or in
+// immediate mode), with deletes, re-creations, increments, patches and an occasional eviction
+// in the middle (the entry counter is restored from the file header), ending at a random point.
+func genLongRandom(r *rand.Rand, idx int) caseSpec {
+	cs := caseSpec{Name: fmt.Sprintf("long-rand-%d", idx), WriteSec: int64(idx % 2), IdleSec: int64(2 + r.IntN(3))}
+	cs.Close = []string{"idle", "restart"}[(idx/2)%2]
+	cs.SettleMs = []int{0, 0, 1500}[r.IntN(3)]
+	cs.Swamp = fmt.Sprintf("c05/y%d/s%d", cs.WriteSec, idx)
+	k := 3 + r.IntN(8)
+	keys := make([]string, k)
+	for i := range keys {
+		keys[i] = fmt.Sprintf("L%d", i)
+	}
+	n := 150 + r.IntN(251)
+	seq := uint64(0)
+	writes := 0
+	for writes < n {
+		batch := 1 + r.IntN(k)
+		for i := 0; i < batch && writes < n; i++ {
+			key := keys[r.IntN(k)]
+			seq++
+			writes++
+			switch x := r.IntN(100); {
+			case x < 72:
+				cs.Steps = append(cs.Steps, uniqueSet(r, key, seq))
+			case x < 84:
+				cs.Steps = append(cs.Steps, step{Op: "del", Keys: []string{key}})
+			case x < 92:
+				cs.Steps = append(cs.Steps, step{Op: "inc", Key: key, Kind: "int64", Class: "one", Meta2: genMeta(r, 30)})
+			default:
+				cs.Steps = append(cs.Steps, step{Op: "patch", Key: key, Patch: &patchSpec{Create: true, Initial: 2, Ops: []int{6, r.IntN(len(patchOps))}}})
+			}
+		}
+		switch {
+		case r.IntN(60) == 0:
+			cs.Steps = append(cs.Steps, step{Op: "sleep", Ms: int(cs.IdleSec+4) * 1000})
+		case cs.WriteSec == 1 || r.IntN(8) == 0:
+			cs.Steps = append(cs.Steps, step{Op: "sleep", Ms: 1100})
+		}
+	}
+	return cs
+}
